@@ -1,6 +1,7 @@
 package hmac
 
 import (
+	tinkpb "github.com/tink-crypto/tink-go/v2/proto/tink_go_proto"
 	"github.com/tink-crypto/tink-go/v2/internal/verifh"
 	macsubtle "github.com/tink-crypto/tink-go/v2/mac/subtle"
 	stdhmac "crypto/hmac"
@@ -148,4 +149,20 @@ func VerifH_c19_hmackey() {
 	verifrt.AssertEq(k.OutputPrefix(), p2, "mutating a returned prefix does not change the key")
 	verifrt.AssertEq(k.KeyBytes().Data(insecuresecretdataaccess.Token{}), kb, "mutating returned key bytes does not change the key")
 	verifrt.Reach("end")
+}
+
+func VerifH_serial_hmac() {
+	ht, _, digest := pickHash("hash")
+	v, kind := pickVariant("variant")
+	id := verifrt.Uint32("id")
+	if kind == 3 {
+		id = 0
+	}
+	kl := 16 + verifrt.Choice("klen", 3)
+	tag := [...]int{10, 11, digest}[verifrt.Choice("tsz", 3)]
+	params, err := NewParameters(ParametersOpts{KeySizeInBytes: kl, TagSizeInBytes: tag, HashType: ht, Variant: v})
+	verifrt.Assert(err == nil, "NewParameters")
+	k, err := NewKey(secretdata.NewBytesFromData(verifrt.Bytes("key", kl), insecuresecretdataaccess.Token{}), params, id)
+	verifrt.Assert(err == nil, "NewKey")
+	verifh.CheckKeyRoundTrip(k, &keySerializer{}, &keyParser{}, &parametersSerializer{}, &parametersParser{}, kind, id, typeURL, tinkpb.KeyData_SYMMETRIC)
 }
